@@ -7,5 +7,7 @@ INVARIANT C12_Name
 INVARIANT C12_FailIsError
 INVARIANT C12_OtherNotWrapped
 INVARIANT C12_Outcome
+INVARIANT C12_PoolClass
 POSTCONDITION Consumed
 CHECK_DEADLOCK FALSE
+CONSTANT KeyMergesWsIntoHttp = FALSE
